@@ -19,6 +19,14 @@ class EmEval(SymEval):
                 recv = self.ev(f.value).key()
             else:
                 recv = norm(f.value)
+                # a chain hanging off an inlined local (species.distribution with species bound to a value): spell it with that value
+                root = f.value
+                chain = []
+                while isinstance(root, ast.Attribute):
+                    chain.append(root.attr)
+                    root = root.value
+                if isinstance(root, ast.Name) and root.id in self.env and chain:
+                    recv = '.'.join([self.env[root.id].key()] + chain[::-1])
             return L('%s.%s(%s)' % (recv, f.attr, ', '.join(self.ev(a).key() for a in n.args)))
         return super().call(n)
 
